@@ -352,6 +352,12 @@ def enumerate_faults(name, quick, rng):
         cases.append({'arch': name, 'faults': [['banner', '*', ['raw', 'motd line\r\n' * k + 'SSH-2.0-OpenSSH_8.0\r\n', None]]] if ARCH[name]['spec'].get('proto', 2) == 2 else []})
     for seg in (1, 2, 7):
         cases.append({'arch': name, 'faults': [], 'segment': seg})
+    if ARCH[name]['spec'].get('proto', 2) == 2:
+        # header lines followed by the banner, cut into segments of every size: a recv may end inside the banner
+        b = ARCH[name]['spec'].get('banner', 'SSH-2.0-OpenSSH_8.0')
+        for pre in ('hello\r\n', 'motd line one\r\n\r\nline two\n'):
+            for seg in (range(3, 40) if not quick else range(3, 40, 2)):
+                cases.append({'arch': name, 'faults': [['banner', '*', ['raw', pre + b + '\r\n', None]]], 'segment': seg})
     cases.append({'arch': name, 'faults': [], 'clean': True})
     return [c for c in cases if c['faults'] or c.get('segment') or c.get('clean')]
 
